@@ -26,6 +26,8 @@ impl InstructionGenerator {
 
         // if true, run statements and jump out
         self.visit(if_block.statements);
+        // RESUME NEXT after the last statement of the block continues here, not in the next block
+        self.mark_statement_address();
         self.jump("end-if", pos);
 
         for i in 0..else_if_blocks.len() {
@@ -47,6 +49,7 @@ impl InstructionGenerator {
 
             // if true, run statements and jump out
             self.visit(else_if_block.statements);
+            self.mark_statement_address();
             self.jump("end-if", pos);
         }
 
